@@ -240,6 +240,10 @@ def run_history(pd, hook, sc, tid, chk, facts, lines, meta, nupd=None, salt=0):
     rp = sc.get("rp") or [4, 4]
     for k in range(1, total + 1):
         regime = rp[0] if 5 * k <= 3 * total else rp[1]
+        zero_mobility = regime == 40          # programme code: matrix_dislocation with M* = 0
+        if zero_mobility:
+            regime = 4
+        step_params = dict(params, gbm_mobility=0) if zero_mobility else params
         m.regime = pd.DeformationRegime(regime)
         f_start = np.array(m.fractions[-1], dtype=float, copy=True)
         o_start = np.array(m.orientations[-1], dtype=float, copy=True)
@@ -249,7 +253,7 @@ def run_history(pd, hook, sc, tid, chk, facts, lines, meta, nupd=None, salt=0):
         nsnap = len(m.orientations)
         hook.reset()
         try:
-            Fn = m.update_orientations(params, F, getL, (t, t + layerb.DT, getx))
+            Fn = m.update_orientations(step_params, F, getL, (t, t + layerb.DT, getx))
         except Exception as ex:  # noqa: BLE001 - rejected / failed updates belong to C07 / C01
             chk.skip("update-raised:" + type(ex).__name__)
             facts["updates_raised"] = facts.get("updates_raised", 0) + 1
@@ -270,7 +274,7 @@ def run_history(pd, hook, sc, tid, chk, facts, lines, meta, nupd=None, salt=0):
             break
         rec = dict(n=n, chi=chi, chin=chi10, chid=10, o_start=o_start, o_st=m.orientations[-1], f_st=m.fractions[-1], last=hook.slot["last"])
         line = project(rec, tid, k)
-        if regime in (0, 1, 7):
+        if regime in (0, 1, 7) or zero_mobility:
             line.update(zero_rate_fields(rec, f_start))
             facts["zero_rate_updates"] = facts.get("zero_rate_updates", 0) + 1
             facts["zero_rate_grains_below_at_start"] = facts.get("zero_rate_grains_below_at_start", 0) + int(sum(line["zbelow"]))
